@@ -7,7 +7,7 @@ from . import c01
 ID = "C08"
 BUDGET = {"quick": 2400, "thorough": 300000}
 RULE = ("scenario = scheduler (naive/any offset) with 1-2 jobs of all five types incl. batched lists (1-3 entries, own offsets), "
-        "skip_missing on (50%) or off, start on/around an occurrence; 2-10 polls with gaps < P, = P, >> P, exactly on an "
+        "skip_missing on (50%) or off, delay=False in 12%, start on/around an occurrence; 2-10 polls with gaps < P, = P, >> P, exactly on an "
         "occurrence, many consecutive catch-up polls at one instant, some forced; non-trivial = a poll that finds the job "
         "at least two periods late, or exactly on an occurrence; distinct by scenario hash")
 ASSUMPTIONS = c01.ASSUMPTIONS
@@ -16,7 +16,7 @@ runner = impl_thr.run_scenario
 
 def scenarios(rng, n, tier):
     for _ in range(n):
-        opts = {"calls": [0, 1, 2, 3, 4], "p_single": 0.5, "p_skip": 0.5, "p_nodelay": 0.0, "p_stop": 0.05,
+        opts = {"calls": [0, 1, 2, 3, 4], "p_single": 0.5, "p_skip": 0.5, "p_nodelay": 0.12, "p_stop": 0.05,
                 "p_limit": 0.1, "max_jobs": 2, "p_force": 0.1, "p_start": 0.5, "max_polls": 10}
         scn = scen.gen_life(rng, opts)
         # add catch-up bursts: several polls at one instant, far after the due time
@@ -48,7 +48,7 @@ def specs(r):
         ob = r["obs"][i]
         if o["op"] == "sch" and ob["res"][0] == "j":
             k = ob["res"][1]
-            if o.get("delay", True):
+            if o.get("delay", True) or not o.get("skip"):
                 jobs[k] = o
                 consumed[k] = []
         elif o["op"] == "exec":
@@ -71,12 +71,17 @@ def specs(r):
         if o2.get("skip") or not consumed[k]:
             continue
         ref = (o2["start"][0] - (o2["start"][1] or 0)) if o2.get("start") else o2["clock"]
+        delay = o2.get("delay", True)
         if o2["call"] == 0:
             T = o2["timings"][0][1]
             for n, d in enumerate(consumed[k], 1):
-                qs.append((f"spec cadence 1 {ref} {T} {n} {d}", {"what": "none_lost_cyclic", "key": k, "n": n}))
-        else:
+                qs.append((f"spec cadence {1 if delay else 0} {ref} {T} {n} {d}", {"what": "none_lost_cyclic", "key": k, "n": n}))
+        elif delay:
             qs.append((f"spec enum {tms_tokens(o2)} {ref} {core.s_list(consumed[k])}", {"what": "none_lost_enumeration", "key": k}))
+        else:
+            # delay=False: the first run belongs to `start` itself, then every occurrence after it, none lost
+            qs.append((f"spec eq {consumed[k][0]} {ref}", {"what": "nodelay_first_is_start", "key": k}))
+            qs.append((f"spec enum {tms_tokens(o2)} {ref} {core.s_list(consumed[k][1:])}", {"what": "none_lost_enumeration_nodelay", "key": k}))
     return qs
 
 
